@@ -70,7 +70,7 @@ fn open_auto_rs(bytes: &[u8]) -> String {
 
 /// `open_workbook_auto(path)` dispatches on the extension and keeps the reader's error
 fn open_auto_path(bytes: &[u8], ext: &str) -> String {
-    let p = std::env::temp_dir().join(format!("c20_{}_{}.{ext}", std::process::id(), ext));
+    let p = std::env::temp_dir().join(format!("c20_{}_{:?}.{ext}", std::process::id(), std::thread::current().id()).replace(['(', ')'], "_"));
     if std::fs::write(&p, bytes).is_err() {
         return "skip".into();
     }
@@ -210,9 +210,29 @@ fn run_ooxml(text: &str, drv: &mut Driver, extras: bool) -> Outcome {
             })
             .collect()
     };
-    let bytes = write_cfb(&streams, &opts, &mut Rng::new(ls));
+    let mut bytes = write_cfb(&streams, &opts, &mut Rng::new(ls));
+    // optional damage (4th field): `cut=<n>` truncates the file, `flip=<offset>.<byte>` overwrites one byte;
+    // a damaged container is outside the property's quantifier: only impl vs model is judged
+    let mut damaged = false;
+    if let Some(d) = f.get(3) {
+        if let Some(n) = d.strip_prefix("cut=") {
+            let n: usize = n.parse().expect("cut");
+            bytes.truncate(n.min(bytes.len()));
+            damaged = true;
+        } else if let Some(x) = d.strip_prefix("flip=") {
+            let (o, b) = x.split_once('.').expect("flip=<offset>.<byte>");
+            let o: usize = o.parse().expect("offset");
+            if o < bytes.len() {
+                bytes[o] = b.parse().expect("byte");
+            }
+            damaged = true;
+        }
+    }
     let enc = streams.iter().find(|(n, _)| n == ENC);
-    let encrypted = enc.is_some();
+    let encrypted = enc.is_some() && !damaged;
+    if damaged {
+        out.count("ooxml:damaged-container");
+    }
     let has_mini = streams.iter().any(|(_, d)| !d.is_empty() && d.len() < 4096);
     let place = match enc {
         Some((_, d)) if d.is_empty() => "empty",
@@ -307,7 +327,25 @@ fn gen_ooxml(rng: &mut Rng, thorough: bool) -> String {
     }
     rng.shuffle(&mut streams);
     let st = if streams.is_empty() { "_".to_string() } else { streams.iter().map(|(n, b)| format!("{}:{}", hexs(n), b)).collect::<Vec<_>>().join("/") };
-    format!("ooxml;{};{}", gen_copts(rng, true), st)
+    let damage = if rng.chance(1, 10) {
+        if rng.chance(2, 3) {
+            // cut points: inside the header, at and around sector boundaries, anywhere
+            let ss = *rng.pick(&[512u64, 4096]);
+            let c = match rng.below(4) {
+                0 => rng.below(600),
+                1 => (rng.below(12) * ss + rng.below(3)).saturating_sub(1),
+                _ => rng.below(40000),
+            };
+            format!(";cut={c}")
+        } else {
+            // one byte of the header (sector shift, counts, start sectors, DIFAT) or of the first sectors
+            let o = if rng.chance(1, 2) { rng.range(24, 96) } else { rng.below(3000) };
+            format!(";flip={}.{}", o, *rng.pick(&[0u64, 1, 2, 9, 12, 0x7F, 0xFE, 0xFF]))
+        }
+    } else {
+        String::new()
+    };
+    format!("ooxml;{};{}{}", gen_copts(rng, true), st, damage)
 }
 
 // ---------------------------------------------------------------------------------------------
@@ -1342,10 +1380,10 @@ fn main() {
         }
     }
     let ncorpus = corpus().len();
-    for (i, text) in cases.iter().enumerate() {
-        // the auto-detection entry points are exercised on the corpus and on one case out of 16
-        let extras = args.replay.is_some() || i < ncorpus || i % 16 == 0;
-        let out = run_case(text, &mut drv, extras);
+    // the auto-detection entry points are exercised on the corpus and on one case out of 16
+    let replaying = args.replay.is_some();
+    let extras_for = move |i: usize| replaying || i < ncorpus || i % 16 == 0;
+    let mut absorb = |rep: &mut Report, text: &str, out: Outcome| {
         rep.case(text, out.nontrivial);
         rep.count(&format!("family:{}", text.split(';').next().unwrap_or("")));
         for c in &out.counters {
@@ -1360,6 +1398,43 @@ fn main() {
             }
             rep.fail(kind, sig, text, im, mo, ex);
         }
+    };
+    let workers = if cases.len() >= 10_000 { std::thread::available_parallelism().map(|n| n.get()).unwrap_or(1).clamp(1, 8) } else { 1 };
+    if workers == 1 {
+        for (i, text) in cases.iter().enumerate() {
+            let out = run_case(text, &mut drv, extras_for(i));
+            absorb(&mut rep, text, out);
+        }
+    } else {
+        // several workers, each with its own driver process; results are absorbed in case order
+        verif_harness::silence_panics();
+        let cases = std::sync::Arc::new(cases);
+        let mut handles = vec![];
+        for w in 0..workers {
+            let cases = cases.clone();
+            let path = args.driver.clone();
+            handles.push(std::thread::spawn(move || {
+                let mut d = Driver::spawn(&path);
+                let mut res = vec![];
+                let mut i = w;
+                while i < cases.len() {
+                    res.push((i, run_case(&cases[i], &mut d, extras_for(i))));
+                    i += workers;
+                }
+                (res, d.requests)
+            }));
+        }
+        let mut all: Vec<(usize, Outcome)> = vec![];
+        for h in handles {
+            let (res, rq) = h.join().expect("worker");
+            rep.add("driver_requests", rq);
+            all.extend(res);
+        }
+        all.sort_by_key(|x| x.0);
+        for (i, out) in all {
+            absorb(&mut rep, &cases[i], out);
+        }
+        rep.add("workers", workers as u64);
     }
     rep.add("driver_requests", drv.requests);
     rep.write(&args.out);
